@@ -36,6 +36,8 @@ from insights.cleaner.password import Password
 from insights.client.config import InsightsConfig
 from insights.core.context import HostContext
 from insights.core.exceptions import ContentException
+from insights.core import dr as insights_dr
+from insights.core import spec_factory as sf
 from insights.core.spec_factory import DatasourceProvider
 
 logging.getLogger("insights.cleaner").setLevel(logging.CRITICAL)    # SubIPError warnings of the width mode
@@ -262,6 +264,80 @@ def make_cleaner(cfg):
         hostname_util.socket = saved
 
 
+
+# --------------------------------------------------------------------------- every spec kind carries its cleaner
+
+SPEC_KINDS = ["simple_file", "glob_file", "first_file", "simple_command", "command_with_args", "foreach_execute",
+              "foreach_collect", "container_execute", "container_collect"]
+# walked from insights.core.spec_factory; what is NOT driven and why
+SPEC_NOT_DRIVEN = {
+    "RawFileProvider / SerializedRawOutputProvider": "write() copies the file with cp; the class documents that raw content is not filtered/obfuscated/redacted",
+    "SerializedOutputProvider": "TextFileProvider used when a stored archive is loaded back (no cleaner, no HostContext); same write() as TextFileProvider",
+    "listdir / listglob / head / first_of / find": "return plain lists / select among other datasources; they produce no provider and write nothing",
+    "CommandOutputProvider / ContainerProvider base classes": "driven through their factories (simple_command …, container_execute / container_collect)",
+}
+
+
+def spec_write(kind, c, call, lines, scratch):
+    """build the spec with its factory, evaluate it under a HostContext with the cleaner in the broker (as
+    insights.collect does), persist it with provider.write(), return the written text"""
+    root = os.path.join(scratch, "root")
+    os.makedirs(os.path.join(root, "etc"), exist_ok=True)
+    rel = "/etc/spec_data.conf"
+    src = os.path.join(root, "etc", "spec_data.conf")
+    with open(src, "w", encoding="utf-8", newline="") as fh:
+        fh.write("\n".join(lines) + "\n")
+    engine = os.path.join(scratch, "fake-engine")        # stands in for /usr/bin/podman: `<engine> exec <id> <cmd…>` runs <cmd…>
+    if not os.path.exists(engine):
+        with open(engine, "w") as fh:
+            fh.write("#!/bin/sh\nshift 2\nexec \"$@\"\n")
+        os.chmod(engine, 0o755)
+    eng_rel = os.path.relpath(engine, "/usr/bin")        # the factory writes "/usr/bin/%s" % engine
+    ctx = HostContext(root=root)
+    broker = insights_dr.Broker()
+    broker[HostContext] = ctx
+    broker["cleaner"] = c
+    prov = object.__new__(type("Src", (object,), {}))
+    kwargs = {"context": HostContext}
+    if kind == "simple_file":
+        ds = sf.simple_file(rel, **kwargs)
+    elif kind == "glob_file":
+        ds = sf.glob_file("/etc/spec_da*.conf", **kwargs)
+    elif kind == "first_file":
+        ds = sf.first_file(["/etc/not_there.conf", rel], **kwargs)
+    elif kind == "simple_command":
+        ds = sf.simple_command("/bin/cat %s" % src, **kwargs)
+    elif kind == "command_with_args":
+        broker[prov] = src
+        ds = sf.command_with_args("/bin/cat %s", prov, **kwargs)
+    elif kind == "foreach_execute":
+        broker[prov] = [src]
+        ds = sf.foreach_execute(prov, "/bin/cat %s", **kwargs)
+    elif kind == "foreach_collect":
+        broker[prov] = [rel]
+        ds = sf.foreach_collect(prov, "%s", **kwargs)
+    elif kind == "container_execute":
+        broker[prov] = [("image", eng_rel, "c0ffee", src)]
+        ds = sf.container_execute(prov, "cat %s", **kwargs)
+    elif kind == "container_collect":
+        broker[prov] = [("image", eng_rel, "c0ffee", src)]
+        ds = sf.container_collect(prov, **kwargs)
+    else:
+        raise ValueError(kind)
+    ds.no_obfuscate = list(call["no_obfuscate"] or [])      # what SpecSetMeta copies from the registry point
+    ds.no_redact = call["no_redact"]
+    res = ds(broker)
+    provs = res if isinstance(res, list) else [res]
+    dst = os.path.join(scratch, "written.txt")
+    try:
+        provs[0].write(dst)
+        with open(dst, "r", encoding="utf-8", newline="") as fh:
+            return type(provs[0]).__name__, fh.read()
+    finally:
+        if os.path.exists(dst):
+            os.remove(dst)
+
+
 # --------------------------------------------------------------------------- implementation adapter
 
 class Run(object):
@@ -275,6 +351,7 @@ class Run(object):
         self.raised = None       # class name of an exception that escaped the implementation (not the designed SubIPError)
         self.mutated = None      # histories: the cleaner's containers before / after the call when they differ
         self.fresh = None        # histories: outcome of the same call on a fresh cleaner with the same numbering
+        self.provider_class = None
 
 
 def run_impl(case, scratch):
@@ -343,6 +420,15 @@ def run_impl(case, scratch):
             finally:
                 if os.path.exists(dst):
                     os.remove(dst)
+        elif route.startswith("spec:"):
+            try:
+                r.provider_class, text = spec_write(route[5:], c, call, lines, scratch)
+                res = text.split("\n")
+                r.lines_out = res
+                r.out = "\t".join(["ok"] + [item(l) for l in res])
+            except ContentException:
+                r.lines_out = []
+                r.out = "empty"
         else:
             raise ValueError(route)
     except Exception as e:
@@ -382,7 +468,7 @@ def run_impl(case, scratch):
 
 def proto_line(case, r):
     cfg, call = case["cfg"], case["call"]
-    mode = {"content": "L", "file": "L", "single": "S", "provider": "P"}[call["route"]]
+    mode = "P" if call["route"].startswith("spec:") else {"content": "L", "file": "L", "single": "S", "provider": "P"}[call["route"]]
     flags = "".join("1" if b else "0" for b in (cfg["obfuscate"], cfg["hostname"], cfg["mac"], cfg["ipv6"],
                                                call["no_redact"], call["width"]))
     al = call["allowlist"]
@@ -654,7 +740,8 @@ class Oracle(object):
         if r.lines_out is None:
             return self.fails        # SubIPError of the width mode: nothing was produced
         out = r.lines_out
-        if call["route"] == "provider" and call["no_redact"] and set(call["no_obfuscate"] or []) == set(NAMES):
+        if (call["route"] == "provider" or call["route"].startswith("spec:")) and call["no_redact"] \
+                and set(call["no_obfuscate"] or []) == set(NAMES):
             return self.fails        # explicitly exempted from everything
         no_obf = set(call["no_obfuscate"] or [])
         text = "\n".join(out)
@@ -706,7 +793,7 @@ class Oracle(object):
                           and len(out) < (len(survivors) if any(survivors) else 0)):   # (a marker can be masked as a password secret)
                         self.fails.append(("pattern-overreach", "line %d %r is matched by none of the patterns %r taken by itself, but it is not in the output %r"
                                            % (idx, l, [name(i) for i in range(len(pats))], out), None))
-            elif route in ("content", "provider") and keeps:
+            elif (route in ("content", "provider") or route.startswith("spec:")) and keeps:
                 want = len(survivors) if any(survivors) else 0
                 if len(out) > want:
                     self.fails.append(("pattern", "%d of the lines %r are matched by none of the patterns %r taken by itself, but the output has %d lines: %r"
@@ -768,7 +855,7 @@ class Oracle(object):
         # known when no line was dropped or when the lines carry markers; otherwise the whole output is searched, and
         # only for tokens ALL of whose occurrences in the input are delimited ones.
         M = cleaner_mod.MAX_LINE_LENGTH
-        if call["route"] != "file" and len(out) == len(lines):
+        if call["route"] != "file" and len(out) == len(lines):  # (spec routes included)
             pairs = [(l[:M], o, False) for l, o in zip(lines, out)]
         elif case.get("markers"):
             pairs = []
@@ -1564,6 +1651,107 @@ def run_histories(chk, hists):
     return all_res
 
 
+
+# --------------------------------------------------------------------------- long lines below MAX_LINE_LENGTH
+
+BOUNDARIES = [1024, 4096, 8192, 16384, 65536]
+
+
+def g_long_case(rng, size, route):
+    """one long line: every kind of sensitive token placed so that it STRADDLES a multiple of 1024 / 4096 / 8192 / 16384 /
+    65536 (the token starts k characters before the boundary, 1 <= k < len(token)); the padding is ' ;' — harmless and
+    not host-name characters.  Returns (long case, short twin: the same tokens separated by ' ; ')"""
+    base = g_case(rng, width_ok=False)
+    cfg = base["cfg"]
+    cfg["obfuscate"], cfg["hostname"], cfg["mac"] = True, True, True
+    cfg["keywords"] = ["secret", "tok"]
+    cfg["patterns"] = {"plain": ["DROPME"]} if rng.random() < 0.25 else None
+    fq = cfg["fqdn"]
+    dom = system_domain(fq)
+    toks = [g_ip(rng), g_ip(rng), g_mac(rng), "2001:db8:0:0:0:0:0:1", "secret", "tok", fq.split(".")[0], fq,
+            "password: hunter2Qx7", "password=" + rng.choice(SECRETS) + "Zq1", g_ip(rng) + ":8080"]
+    if dom:
+        toks += ["db07." + dom, "a.b." + dom]
+    if cfg["patterns"] and rng.random() < 0.5:
+        toks.append("DROPME")
+    rng.shuffle(toks)
+    places, used = [], []
+    for t in toks:
+        for _ in range(30):
+            B = rng.choice([b for b in BOUNDARIES if b < size] or [1024])
+            m = rng.randint(1, max(1, (size - len(t) - 2) // B))
+            start = m * B - rng.randint(1, max(1, len(t) - 1))
+            if start > 2 and start + len(t) + 2 < size and all(start + len(t) + 2 <= a or b + 2 <= start for a, b in used):
+                used.append((start, start + len(t)))
+                places.append((start, t))
+                break
+    places.sort()
+    out, pos = [], 0
+    for start, t in places:
+        gap = start - pos
+        out.append((" ;" * (gap // 2 + 1))[:gap - 1] + " ")
+        out.append(t)
+        pos = start + len(t)
+    out.append((" ;" * ((size - pos) // 2 + 1))[:max(size - pos, 1)])
+    long_line = "".join(out)
+    short_line = " ; " + " ; ".join(t for _, t in places) + " ;"
+    call = {"no_obfuscate": None, "no_redact": False, "allowlist": None, "width": False, "route": route}
+    if route == "provider":
+        call["no_obfuscate"] = []
+    tail = "\n" if route == "file" else ""
+    lines_long = [long_line + tail] if route in ("single", "file") else ["lorem ; up", long_line]
+    lines_short = [short_line + tail] if route in ("single", "file") else ["lorem ; up", short_line]
+    mk = lambda ls: {"cfg": cfg, "call": dict(call), "lines": ls, "markers": False}
+    return mk(lines_long), mk(lines_short), [(st, t) for st, t in places]
+
+
+def collapse(r):
+    """the outcome with every run of padding collapsed: what a long line and its short twin must have in common"""
+    if r.lines_out is None:
+        return r.out
+    return re.sub("[ ;]+", " ", "\n".join(r.lines_out))
+
+
+def long_line_stream(chk, n, sizes):
+    rng = chk.rng
+    scratch = tempfile.mkdtemp(prefix="c08-")
+    twins, modelled, bad, done = [], [], 0, 0
+    try:
+        for i in range(n):
+            size = sizes[i % len(sizes)] + rng.randint(0, 900)
+            route = ["content", "single", "file", "provider"][(i // len(sizes)) % 4]
+            lc, sc_, places = g_long_case(rng, size, route)
+            if not in_domain(lc):
+                continue
+            rl, rs = run_impl(lc, scratch), run_impl(sc_, scratch)
+            done += 1
+            chk.case(("long", i, size, route), nontrivial=True)
+            chk.count("long-line:%s:%dK" % (route, size // 1024))
+            for st, t in places:
+                for b in BOUNDARIES:
+                    if st // b != (st + len(t) - 1) // b:
+                        chk.count("long-line:token-straddles-multiple-of-%d" % b)
+            small = {"cfg": lc["cfg"], "call": lc["call"], "size": size, "tokens": places}
+            for clause, text, fid in Oracle(lc, rl).check():
+                chk.count("oracle:" + clause + (":" + fid if fid else ""))
+                chk.failure("%s (line of %d characters): %s" % (clause, size, text[:600]), {"op": "clean", "case": lc}, finding=fid)
+            if collapse(rl) != collapse(rs):
+                bad += 1
+                chk.failure("long-line: a line of %d characters is cleaned differently from the same tokens on a short line: %r vs %r"
+                            % (size, collapse(rl)[:400], collapse(rs)[:400]), {"op": "clean", "case": lc})
+            twins.append(sc_)
+            if size <= 5200 and len(modelled) < (2 if chk.tier == "quick" else 20):
+                modelled.append(lc)         # (the model is quadratic in the line length: the others are tied through their short twin)
+    finally:
+        shutil.rmtree(scratch, ignore_errors=True)
+    chk.stream("clean:long-line-vs-short-twin", done, bad)
+    if bad:
+        chk.tie_broken("correspondence:clean:long-line-vs-short-twin", "%d of %d long lines differ from their short twin" % (bad, done), None)
+    run_cases(chk, twins, "clean:long-line-short-twin")
+    if modelled:
+        run_cases(chk, modelled, "clean:long-line")
+
+
 # --------------------------------------------------------------------------- recogniser streams
 
 def guard(f):
@@ -1893,6 +2081,27 @@ def run(chk):
     hres = run_histories(chk, hs)
     chk.sample({"history": [{"no_obfuscate": c["no_obfuscate"], "lines": c["lines"]} for c in hs[0]["calls"]],
                 "cleaned": [r.lines_out for r in hres[0]]})
+
+    # ---- every spec kind carries its cleaner: factory -> provider under a HostContext with the cleaner in the broker -> write()
+    sk = []
+    for kind in SPEC_KINDS:
+        while sum(1 for c in sk if c["call"]["route"] == "spec:" + kind) < (14 if quick else 250):
+            c = g_case(chk.rng, width_ok=False)
+            c["call"].update(route="spec:" + kind, allowlist=None, no_obfuscate=c["call"]["no_obfuscate"] or [])
+            c["lines"] = [(l.replace("\n", " ").encode("ascii", "replace").decode("ascii") or "x") for l in c["lines"]]
+            c["lines"] = [l if l.strip() else "x" + l for l in c["lines"]]
+            c["markers"] = False
+            if in_domain(c):
+                sk.append(c)
+    run_cases(chk, sk, "clean:spec-kinds")
+    chk.extra["spec_kinds_driven"] = SPEC_KINDS + ["DatasourceProvider (route provider of the main stream)"]
+    chk.extra["spec_kinds_not_driven"] = SPEC_NOT_DRIVEN
+
+    # ---- long lines below the limit, tokens straddling multiples of 1024 … 65536
+    if quick:
+        long_line_stream(chk, 12, [4200, 8300, 17000, 66000])
+    else:
+        long_line_stream(chk, 160, [4200, 8300, 17000, 33000, 66000, 132000, 300000])
 
     # ---- exclusion lists of several independent regular expressions, no other stage running
     rl = []
